@@ -91,9 +91,9 @@ def job(j):
             ok = any(a != FAIL and tokens.matches(obs[1], a, cell["t"], k) for a in allowed)
         else:
             ok = False
-        if not ok and len(st["viol"]) < 200:
+        if not ok and len(st["viol"]) < 400:
             shown = obs if obs == FAIL else (obs[0], repr(obs[1]), type(obs[1]).__name__)
-            st["viol"].append(({"kind": "scalar-cell", "scalar": cell["s"], "dir": cell["dir"], "lit": cell["k"], "token": cell["t"], "how": how},
+            genrun.add_viol(st["viol"], ({"kind": "scalar-cell", "scalar": cell["s"], "dir": cell["dir"], "lit": cell["k"], "token": cell["t"], "how": how},
                                {"cell": cell, "representative": repr(tokens.REPS.get(cell["t"], tokens.LIT_TEXT.get(cell["t"]))[k % tokens.nreps(cell["t"])]),
                                 "observed": shown, "response": resp}))
 
